@@ -658,7 +658,7 @@ def explore(cfn, contract_name, tier="quick", max_paths=400):
                 except Exception as e:  # noqa: BLE001
                     run.raised = (e, traceback.format_exc())
                     run.obligations.append(
-                        Obligation(None, list(run.facts), S.FALSE, "raise", f"uncaught {type(e).__name__}: {str(e)[:200]}", None, "uncaught-exception")
+                        Obligation(None, list(run.facts), S.FALSE, "raise", f"uncaught {type(e).__name__}: {str(e)[:200]} | " + " <- ".join(f"{f.name}:{f.lineno}" for f in reversed(traceback.extract_tb(e.__traceback__)[-6:])), None, "uncaught-exception")
                     )
         finally:
             S.ORACLE[0] = None
